@@ -1,11 +1,12 @@
 """C04 - expressions evaluate to what the function documentation prescribes"""
-from ..scen_kernels import kernels
+from ..scen_kernels import kernels, kernel_examples
 
 
 from ._arith import arithmetic
 
 
 def run(ctx):
+    kernel_examples(ctx)
     kernels(ctx)
     from ..scen_ctx import contexts
     from ..scen_misc import pipe, variable_get, function_names
